@@ -632,6 +632,134 @@ func runC13(c *Ctx) {
 	if nT7 == 0 {
 		c.Undecided(fname(prove)+"#collects-visited-nodes", prove.Pos(), "no type switch over *shortNode / *fullNode inside a loop was found in Prove")
 	}
+
+	// ------------------------------------------------------------ T8
+	c.Rule("C13.T8", "ALWAYS-WITH", "a node's cached hash and its dirty bit travel together: wherever package trie fills nodeFlag.hash of a node it builds from the cached hash of ANOTHER node (a load of that node's flags.hash), it also fills dirty from that same node's flags.dirty — a replacement node that keeps the hash but drops the dirty bit looks persisted, so the hasher neither stores it nor descends into it and Commit returns a root whose nodes were never written. (Hashes that come from a parameter — nodes read from the database — or from the hasher itself are clean by construction.)")
+	c.Min(3)
+	{
+		nHash := 0
+		isFlagField := func(fa *ssa.FieldAddr, name string) bool {
+			f := fieldOfAddr(fa)
+			return f != nil && f.Name() == name && fieldOwner(w, f) == "nodeFlag"
+		}
+		for _, fn := range trieFns {
+			k := 0
+			for _, b := range fn.Blocks {
+				for _, in := range b.Instrs {
+					st, ok := in.(*ssa.Store)
+					if !ok {
+						continue
+					}
+					fa, ok := st.Addr.(*ssa.FieldAddr)
+					if !ok || !isFlagField(fa, "hash") {
+						continue
+					}
+					nHash++
+					c.sites++
+					c.sawFunc(fname(fn))
+					cons := fmt.Sprintf("%s#cached-hash-with-dirty-bit-%d", fname(fn), k)
+					k++
+					// is the value another node's cached hash?
+					var srcFlags ssa.Value
+					if ld, isLd := stripConvNoBind(st.Val).(*ssa.UnOp); isLd && ld.Op == token.MUL {
+						if sfa, isFA := ld.X.(*ssa.FieldAddr); isFA && isFlagField(sfa, "hash") {
+							srcFlags = sfa.X
+						}
+					}
+					if srcFlags == nil {
+						c.Check(cons, st.Pos(), true, "the hash does not come from another node's flags")
+						continue
+					}
+					okDirty := false
+					for _, b2 := range fn.Blocks {
+						for _, in2 := range b2.Instrs {
+							st2, ok := in2.(*ssa.Store)
+							if !ok {
+								continue
+							}
+							fa2, ok := st2.Addr.(*ssa.FieldAddr)
+							if !ok || !isFlagField(fa2, "dirty") || fa2.X != fa.X {
+								continue
+							}
+							if ld, isLd := stripConvNoBind(st2.Val).(*ssa.UnOp); isLd && ld.Op == token.MUL {
+								if sfa, isFA := ld.X.(*ssa.FieldAddr); isFA && isFlagField(sfa, "dirty") && samePath(sfa.X, srcFlags) {
+									okDirty = true
+								}
+							}
+						}
+					}
+					c.Check(cons, st.Pos(), okDirty, ifelse(okDirty, "dirty is taken from the same node", "the new node takes another node's cached hash but not its dirty bit: a node that was never written looks persisted, the hasher skips it and a committed root cannot be reopened"))
+				}
+			}
+		}
+		if nHash == 0 {
+			c.Undecided("trie#nodeFlag-hash-stores", token.NoPos, "no store into nodeFlag.hash found in package trie")
+		}
+	}
+
+	// ------------------------------------------------------------ T9
+	c.Rule("C13.T9", "EXHAUSTIVE", "iteration visits every slot of a branch: the loop of (*nodeIterator).nextChild that scans fullNode.Children by index is bounded by the length of the Children array (17: sixteen nibbles and the value slot) — a smaller bound silently drops every key that is a proper prefix of another key from iteration")
+	c.Min(1)
+	{
+		nc := w.Fn("trie", "nodeIterator", "nextChild")
+		c.sawFunc(fname(nc))
+		childrenF := w.Field("trie", "fullNode", "Children")
+		arrLen := int64(-1)
+		if at, ok := childrenF.Type().Underlying().(*types.Array); ok {
+			arrLen = at.Len()
+		}
+		nLoop := 0
+		for _, b := range nc.Blocks {
+			for _, in := range b.Instrs {
+				ia, ok := in.(*ssa.IndexAddr)
+				if !ok {
+					continue
+				}
+				fa, ok := ia.X.(*ssa.FieldAddr)
+				if !ok || fieldOfAddr(fa) != childrenF {
+					continue
+				}
+				if _, isC := constInt(ia.Index); isC {
+					continue
+				}
+				// the loop condition on the index variable
+				var bounds []ssa.Value
+				for _, hb := range nc.Blocks {
+					if !isLoopHeader(hb) || !naturalLoop(hb)[b] {
+						continue
+					}
+					for _, lb := range nc.Blocks {
+						if !naturalLoop(hb)[lb] {
+							continue
+						}
+						iff, isIf := lb.Instrs[len(lb.Instrs)-1].(*ssa.If)
+						if !isIf {
+							continue
+						}
+						bo, isB := iff.Cond.(*ssa.BinOp)
+						if !isB || bo.Op != token.LSS || stripConvNoBind(bo.X) != stripConvNoBind(ia.Index) {
+							continue
+						}
+						bounds = append(bounds, bo.Y)
+					}
+				}
+				nLoop++
+				c.sites++
+				ok2 := len(bounds) > 0
+				got := "no loop bound on the index found"
+				for _, bd := range bounds {
+					if n, isC := constInt(bd); !isC || n != arrLen {
+						ok2 = false
+						got = "bound " + termOf(bd, 3)
+					}
+				}
+				c.Check(fmt.Sprintf("%s#scans-all-%d-slots", fname(nc), arrLen), ia.Pos(), ok2, ifelse(ok2, "i < len(Children)", "the scan of a branch's children stops early ("+got+"): the value slot (index 16) is never visited, so a key that is a prefix of another key is missing from iteration while Get and the root still see it"))
+			}
+		}
+		if nLoop == 0 {
+			c.Undecided(fname(nc)+"#scans-all-slots", nc.Pos(), "no indexed scan of fullNode.Children found in nextChild")
+		}
+	}
 }
 
 // sameNode: two base values denote the same node (same SSA value, or loads of the same local).
